@@ -79,9 +79,10 @@ PROPS = {
         # threads that overwrite foreign files / old outputs and a rollback, with a yield point at every executed line of
         # the backup store, the directory bookkeeping and the cache tables (all single preemptions)
         'thread_units': (6, 60, 0, 0, 0, 0), 'thread_profile': 'threadsfl',
+        'backupbind': (16700, 40000),     # what is moved aside - foreign files included - comes back: FBBackup!Name binding
         'units': [('swap', 1200, 15000), ('subcache', 400, 5000), ('foreign', 1500, 30000), ('forcrash', 1500, 30000), ('clean', 400, 8000),
                   ('crash', 300, 5000), ('selfnest', 800, 10000)],
-        'owned': {'ForeignUntouched'},
+        'owned': {'ForeignUntouched', 'SlotName', 'SlotNamesDistinct', 'SlotSequence', 'RestoreAll', 'BackupMoves'},
         'nontrivial': lambda st, sc: st['commit'] + st['rollback'] + st['clean'] > 1,
         'rule': 'foreign files planted inside created directories, at former output positions and next to '
                 'the cache file across commits, rollbacks and cleans; non-trivial = at least two '
